@@ -27,7 +27,7 @@ const (
 	//   0123456789abcdef0123456789abcdef
 	needPipeMap = "" +
 		"xxxxxxxxxxxxxxxxxxxxxxxxxxxxxxxx" + // 0x00
-		"xxxx..xxxx..x..x...........x...." + // 0x20
+		"xxxx..xxxx..x..............x...." + // 0x20
 		"...........................xxx.." + // 0x40
 		"x..........................xxx.x" + // 0x60
 		"................................" + // 0x80
@@ -363,8 +363,9 @@ Top:
 	switch to := obj.(type) {
 	case List:
 		if int(p.Level) <= level {
-			obj = Symbol("#")
-			goto Top
+			n.buf = []byte{'#'}
+			n.size = 1
+			break
 		}
 		if 0 < len(to) {
 			l2 := level + 1
@@ -387,7 +388,7 @@ Top:
 			n.size = 2
 		}
 	case Symbol:
-		n.buf = []byte(p.caseName(string(to)))
+		n.buf = to.Readably(nil, p)
 		n.size = len(n.buf)
 	case SpecialSyntax:
 		obj = to.GetArgs()[0]
